@@ -44,12 +44,14 @@ def field_branch_stmt(fvw, pname):
 
 
 def perm_compose(p, q):
-    """(p then q) as numpy transposes: result axes"""
+    """(p then q) as numpy transposes: result axes; None when either is not a permutation of the same length"""
+    if p is None or q is None or len(p) != len(q) or sorted(p) != list(range(len(p))) or sorted(q) != list(range(len(q))):
+        return None
     return tuple(p[i] for i in q)
 
 
 def is_identity(p):
-    return tuple(p) == tuple(range(len(p)))
+    return p is not None and tuple(p) == tuple(range(len(p)))
 
 
 # ---------------------------------------------------------------------------- _as_array summaries
